@@ -2143,7 +2143,8 @@ func expIntValue(mantissa, exponent string) (int64, error) {
 	if m.Sign() != 0 && e > 19 {
 		return 0, errors.New("int literal out of range")
 	}
-	if e < -19 {
+	// NOTE: mantissa is less than 10**len(mantissa)
+	if e <= -int64(len(mantissa)) {
 		return 0, nil
 	}
 
